@@ -11,10 +11,43 @@ Inductive case :=
          (refs : list Z)            (* VerifRefs before each of the first instructions *)
          (impl : outcome)
          (static : bool)            (* scparser.IsScriptCorrect(script, nil) == nil *)
+(* several scripts: SYSCALL k loads scripts[k-1] on top (k odd: vm.LoadScriptWithHash - own id, exactly one result;
+   k even: vm.LoadScriptWithFlags - the entry script's id, all results) - the way the node performs contract calls *)
+| CMulti (prog : list Z) (scripts : list (list Z)) (base limit_pico : Z) (fuel : positive) (refs : list Z) (impl : outcome)
 | CMethods (prog : list Z) (methods : list Z)
            (verdict : bool).        (* every method offset < len(script) and IsScriptCorrect(script, offsets) == nil *)
 
+Definition sys_load (scripts : list (list Z)) : syshandler := fun op p s =>
+  match op with
+  | SYSCALL =>
+      let k := from_le p in
+      if (k <? 1) || (zlen scripts <? k) then None
+      else match nth_error scripts (Z.to_nat (k - 1)) with
+           | Some prog =>
+               if MaxInvocationStackSize <=? depth s then None
+               else if Z.odd k then Some (load_script s prog (Z.to_N (k + 1)) 1)
+               else Some (load_script s prog 1%N (-1))
+           | None => None
+           end
+  | _ => None
+  end.
+
 (* replay: returns (mechanism ok so far, specification ok so far) and the final result *)
+Fixpoint replay_with (sys : syshandler) (fuel : nat) (s : state) (refs : list Z) (m sp : bool) : bool * bool * result :=
+  match fuel with
+  | O => (m, sp, Running s)
+  | S f =>
+      let '(m, sp, refs') :=
+        match refs with
+        | [] => (m, sp, [])
+        | r :: t => (m && (s_refs s =? r), sp && (reach_count s <=? r) && (r <=? MaxStackSize), t)
+        end in
+      match step_with sys s with
+      | Running s' => replay_with sys f s' refs' m sp
+      | r => (m, sp, r)
+      end
+  end.
+
 Fixpoint replay (fuel : nat) (s : state) (refs : list Z) (m sp : bool) : bool * bool * result :=
   match fuel with
   | O => (m, sp, Running s)
@@ -45,6 +78,13 @@ Definition check_case (c : case) : N :=
           if same && m && sp && Bool.eqb st static then 0%N
           else if same && sp && (st || negb static) then 1%N else 2%N
       end
+  | CMulti prog scripts base limit fuel refs impl =>
+      if negb (bytes_okb prog) || negb (forallb bytes_okb scripts) then 3%N else
+      let '(m, sp, r) := replay_with (sys_load scripts) (Pos.to_nat fuel) (init_state prog 1%N base limit) refs true true in
+      match outcome_of r with
+      | None => 2%N
+      | Some o => if outcome_eqb o impl && m && sp then 0%N else 2%N
+      end
   | CMethods prog methods verdict =>
       if negb (bytes_okb prog) || negb (forallb (fun m => 0 <=? m) methods) then 3%N else
       let st := script_correct_m prog methods in
@@ -55,5 +95,7 @@ Definition model_view (c : case) :=
   match c with
   | CTrace prog base limit fuel refs impl static =>
       let '(m, sp, r) := replay (Pos.to_nat fuel) (init_state prog 1%N base limit) refs true true in (m, sp, outcome_of r, script_correct prog)
+  | CMulti prog scripts base limit fuel refs impl =>
+      let '(m, sp, r) := replay_with (sys_load scripts) (Pos.to_nat fuel) (init_state prog 1%N base limit) refs true true in (m, sp, outcome_of r, true)
   | CMethods prog methods verdict => (true, true, None, script_correct_m prog methods)
   end.
